@@ -221,4 +221,73 @@ example : (run (init [1, 2]) [.start 2, .start 1, .finish 1, .finish 2, .deliver
 example : run (init [1, 2]) [.start 1, .finish 1, .deliver] = none := by decide        -- not before all returned
 example : run (init [1]) [.start 1, .start 1] = none := by decide                      -- never twice
 
+/-! ### the reply batch can always be encoded (finding F17)
+
+`deliver` sends the encoded batch or - if encoding fails - nothing, for any of the calls of that
+inbound message. So "every call gets its response" needs the encoding to be total on what
+`responses` builds. It is, because `responses` drops error data that cannot be encoded. -/
+
+open Jrpc.Wire in
+/-- a sanitised error always marshals -/
+theorem sanitized_marshals (e : ErrVal) : (marshalError (sanitizeError e)).isSome = true := by
+  unfold sanitizeError marshalError
+  by_cases h : e.data.length ≠ 0 ∧ Jrpc.Json.valid e.data = false
+  · simp [h]
+  · simp only [h, if_false]
+    by_cases hd : e.data = []
+    · simp [hd]
+    · have hl : e.data.length ≠ 0 := by simpa using hd
+      have hv : Jrpc.Json.valid e.data = true := by
+        cases hb : Jrpc.Json.valid e.data with
+        | true => rfl
+        | false => exact absurd ⟨hl, hb⟩ h
+      simp [hv]
+
+open Jrpc.Wire in
+/-- it keeps the handler's code and message, and it keeps everything when the data is encodable -/
+theorem sanitize_keeps (e : ErrVal) :
+    (sanitizeError e).code = e.code ∧ (sanitizeError e).msg = e.msg ∧
+    ((e.data = [] ∨ Jrpc.Json.valid e.data = true) → sanitizeError e = e) := by
+  unfold sanitizeError
+  refine ⟨?_, ?_, ?_⟩
+  · split <;> rfl
+  · split <;> rfl
+  · intro h
+    rcases h with h | h
+    · simp [h]
+    · simp [h]
+
+open Jrpc.Wire in
+/-- **every reply batch built by `responses` encodes**, with one entry per call, in order, each
+under its own id: whatever the handlers returned, one message is produced for the inbound message
+(so `deliver` never drops the replies of the other calls of a batch because of one call's error
+value) -/
+theorem reply_batch_entries (batch : Bool) (rs : List (Jrpc.Json.Bytes × ReplyOutcome)) :
+    ∃ ms, replyMsgs batch (builtReplies rs) = some ms ∧ ms.map (·.id) = rs.map (·.1) := by
+  induction rs with
+  | nil => exact ⟨[], rfl, rfl⟩
+  | cons p rest ih =>
+    obtain ⟨rid, o⟩ := p
+    obtain ⟨ms, hms, hids⟩ := ih
+    cases o with
+    | result r =>
+      refine ⟨{ id := rid, r := r, batch := batch } :: ms, ?_, by simp [hids]⟩
+      simp only [builtReplies, replyMsgs, sanitizeOutcome, replyMsg, hms]
+    | error e =>
+      obtain ⟨t, ht⟩ := Option.isSome_iff_exists.mp (sanitized_marshals e)
+      refine ⟨{ id := rid, e := some t, batch := batch } :: ms, ?_, by simp [hids]⟩
+      simp only [builtReplies, replyMsgs, sanitizeOutcome, replyMsg, ht, hms, Option.map_some]
+
+open Jrpc.Wire in
+theorem reply_batch_encodes (batch : Bool) (rs : List (Jrpc.Json.Bytes × ReplyOutcome)) :
+    (encodeReplies batch (builtReplies rs)).isSome = true := by
+  obtain ⟨ms, hms, _⟩ := reply_batch_entries batch rs
+  simp [encodeReplies, hms]
+
+-- the mechanism of F17: without that step one unencodable error value loses the whole batch
+open Jrpc.Wire in
+example : encodeReplies true [([49], .error { code := 7, msg := [120], data := [123, 34, 97, 34, 58] }), ([50], .result [34, 111, 107, 34])] = none := by decide
+open Jrpc.Wire in
+example : (encodeReplies true (builtReplies [([49], .error { code := 7, msg := [120], data := [123, 34, 97, 34, 58] }), ([50], .result [34, 111, 107, 34])])).isSome = true := by decide
+
 end Jrpc.Props.C01
